@@ -51,11 +51,16 @@ func PlainDict(id int) string { return "p" + strconv.Itoa(id) + "q" }
 
 // Ctx concretises the terms of one case.
 type Ctx struct {
-	Dict   Dict
-	byID   map[int]*Term
-	vals   map[int]interface{}
-	Calls  []CallRec
-	callMu sync.Mutex
+	Dict Dict
+	// C02: when SecretInts != 0, int/uint/float/bool leaves NOT declared safe (per Public,
+	// the statement-level context map) take values that depend on the instantiation.
+	SecretInts int
+	Public     map[int]bool // Publicity(): leaf values keyed by -id
+	HandleBase int
+	byID       map[int]*Term
+	vals       map[int]interface{}
+	Calls      []CallRec
+	callMu     sync.Mutex
 }
 
 type CallRec struct {
@@ -64,11 +69,21 @@ type CallRec struct {
 	V  int    `json:"v"`
 }
 
+var nextBase int64
+
 func NewCtx(d Dict) *Ctx {
 	if d == nil {
 		d = PlainDict
 	}
-	return &Ctx{Dict: d, byID: map[int]*Term{}, vals: map[int]interface{}{}}
+	return &Ctx{Dict: d, byID: map[int]*Term{}, vals: map[int]interface{}{}, HandleBase: int(atomic.AddInt64(&nextBase, 1)) * 1000}
+}
+
+// NewCtxLike shares the object handles of a released context (so that public
+// object values are equal in both instantiations of a C02 pair).
+func NewCtxLike(d Dict, base int) *Ctx {
+	c := NewCtx(d)
+	c.HandleBase = base
+	return c
 }
 
 func (c *Ctx) call(m string, t *Term, verb rune) {
@@ -109,8 +124,7 @@ type objSpec struct {
 }
 
 var (
-	specs      sync.Map
-	nextHandle int64 = 100
+	specs sync.Map
 )
 
 func specOf(h int) *objSpec {
@@ -301,10 +315,19 @@ func (c *Ctx) build(t *Term) interface{} {
 	case "bool":
 		return true
 	case "int":
+		if c.SecretInts != 0 && !c.Public[-t.ID] {
+			return 7770 + c.SecretInts
+		}
 		return int(t.N)
 	case "uint":
+		if c.SecretInts != 0 && !c.Public[-t.ID] {
+			return uint(7770 + c.SecretInts)
+		}
 		return uint(t.N)
 	case "float":
+		if c.SecretInts != 0 && !c.Public[-t.ID] {
+			return float64(7770+c.SecretInts) + 0.5
+		}
 		return float64(t.ID) + 0.5
 	case "string":
 		return string(c.Subst(t.B))
@@ -329,7 +352,7 @@ func (c *Ctx) build(t *Term) interface{} {
 		if hasCap(t, "NILP") {
 			return objMakers[reg][mask](0, true)
 		}
-		h := int(atomic.AddInt64(&nextHandle, 1))
+		h := c.HandleBase + t.ID%1000
 		specs.Store(h, &objSpec{c, t})
 		return objMakers[reg][mask](h, false)
 	case "slice":
